@@ -165,6 +165,9 @@ func RAbs(a float64) float64 {
 func RLess(a, b float64) bool { return a < b }
 func RLeq(a, b float64) bool  { return a <= b }
 
+// FloorUF is math.Floor, named so that the uninterpreted-float mode maps it to the same symbol as the code's.
+func FloorUF(x float64) float64 { return math.Floor(x) }
+
 // Time builds a time.Time from a nanosecond instant (symbolically: the engine's time model).
 func Time(ns int64) time.Time { return time.Unix(0, ns) }
 
